@@ -136,6 +136,9 @@ pub fn run_check(ctx: &Ctx) -> Outcome {
             check_2q_quota_grid(ctx, &mut out);
             check_vtype(ctx, Kind::TwoQ, &mut out, 3000, 60000);
             check_big(ctx, crate::big::BigProp::C08, &[Kind::TwoQ], &mut out, 3, 40);
+            if ctx.scale >= 1.0 {
+                check_twoq_victim_grid(ctx, &mut out);
+            }
         }
         "C09" => {
             check_e1(ctx, Prop::C09, &mut out, 12000, 250000);
@@ -209,6 +212,10 @@ pub fn replay(prop: &str, engine: &str, case: &Value) -> Result<Option<Violation
                 check_2q_quota_grid_for(&ctx, &mut o, pid);
             }
             Ok(o.violations.first().map(|(_, m)| Violation { prop: pid, step: 0, msg: m.clone(), sig: format!("ctor/-/{}", engine) }))
+        }
+        "twoqgrid" => {
+            let (_, _, bad) = crate::big::twoq_victim_grid(false);
+            Ok(bad.map(|m| Violation { prop: "C08", step: 0, msg: m, sig: "twoq/-/victim-grid".into() }))
         }
         "arcgrid" => {
             let (_, _, bad) = crate::big::arc_adaptation_grid(false, 8);
